@@ -2,7 +2,7 @@
 import itertools
 from io import BytesIO
 
-from ..core import attempt, V, R
+from ..core import attempt, V, R, isolated
 from ..ref import hd
 
 LEVEL = "exploration"
@@ -133,8 +133,71 @@ def chk_varint(v):
     return "varint-ok-%d" % len(e), []
 
 
+D20, D20B, D76, D75 = b"\x11" * 20, b"\x22" * 20, b"\x33" * 76, b"\x44" * 75
+HIST_OPS = [["ser"], ["raw"], ["set", 2, "D20B"], ["set", 2, "D76"], ["set", 0, 0x51], ["append", "D75"], ["append", 0x51], ["pop"]]
+_ITEMS = {"D20B": D20B, "D76": D76, "D75": D75}
+
+
+class ScriptObjectHistories:
+    """operations on ONE Script object (serialise, mutate cmds in place, serialise again ...): every serialisation must be
+    the wire form of the script's CURRENT commands. canon = the history (instance-level caches are unobservable)."""
+
+    def ops(self, hist):
+        return HIST_OPS
+
+    def run(self, hist):
+        Script = _script()
+        cmds = [0x76, 0xa9, D20, 0x88, 0xac]
+        sc = Script(cmds)
+        model = list(cmds)
+        viols, label = [], "init"
+        for n, op in enumerate(hist):
+            last = n == len(hist) - 1
+            if op[0] in ("ser", "raw"):
+                st, b = attempt(sc.serialize if op[0] == "ser" else sc.raw_serialize)
+                exp = hd.script_raw(model)
+                if op[0] == "ser":
+                    exp = hd.varint(len(exp)) + exp
+                if last:
+                    label = "serialisation-current"
+                    if st != "ok" or b != exp:
+                        label = "violation"
+                        viols.append(V(P + ":serialize:history:stale-or-wrong-bytes",
+                                       "after %r on the same Script object, %s() does not give the wire form of the current commands" % (
+                                           hist[:-1], "serialize" if op[0] == "ser" else "raw_serialize"),
+                                       b[:16].hex() if st == "ok" else b, exp[:16].hex()))
+                    else:
+                        buf = BytesIO(hd.varint(len(hd.script_raw(model))) + hd.script_raw(model))
+                        st, back = attempt(Script.parse, buf)
+                        if st != "ok" or not (back == sc):
+                            label = "violation"
+                            viols.append(V(P + ":Script.parse:history:roundtrip", "after %r parse(serialize()) != script" % (hist,)))
+            elif op[0] == "set":
+                item = _ITEMS.get(op[2], op[2])
+                if op[1] < len(model):
+                    sc.cmds[op[1]] = item
+                    model[op[1]] = item
+                label = "mutated"
+            elif op[0] == "append":
+                item = _ITEMS.get(op[1], op[1])
+                sc.cmds.append(item)
+                model.append(item)
+                label = "mutated"
+            elif op[0] == "pop":
+                if model:
+                    sc.cmds.pop()
+                    model.pop()
+                label = "mutated"
+        return {"canon": hist, "viols": viols, "label": label}
+
+
 def execute(case):
-    k = case["k"]
+    k = case.get("k")
+    if "hist" in case:
+        r = isolated(ScriptObjectHistories().run, case["hist"])
+        for v in r["viols"]:
+            v["case"] = case
+        return R(r["label"], viols=r["viols"])
     outcomes, viols, n = {}, [], 0
 
     def acc(res, single):
@@ -206,4 +269,6 @@ def run(ctx):
     ctx.product("varints", cases, execute)
     ctx.product("truncated-varint-prefix", [{"k": "varint_prefix", "v": v} for v in (0xfd, 0x100, 0xffff, 0x10000, 0x01000000,
                                                                                   2**32, 2**40, 2**63)], execute, parallel=False)
+    from ..bfs import bfs
+    bfs(ctx, "script-object-histories", ScriptObjectHistories(), 4 if ctx.thorough else 3)
     return {}
